@@ -29,39 +29,56 @@ def oracle(progs: Sequence[Dict[str, Any]], module: str = "Eval_Djc", workers: i
     stats = {"states": 0, "timeouts": 0}
 
     def evaluate(tag: str, part) -> Any:
-        """One TLC run over `part`.  The evaluation of a rare program is pathologically slow (minutes; the same
-        spec evaluates the others in milliseconds): on a timeout the part is split, and a single program that
-        still exceeds the budget is returned as an (unspecified) zone and counted - never guessed."""
-        fin, fout = w / f"in{tag}.ndjson", w / f"out{tag}.ndjson"
-        tlc.write_ndjson(fin, part)
-        try:
-            r = tlc.run(module, f"{module}.cfg", env={"IN": str(fin), "OUT": str(fout)}, workers=1, heap="3g",
-                        timeout=150 if len(part) == 1 else 420)
-        except MachineryError as e:
-            if "timeout" not in str(e):
-                raise
-            for f in (fin, fout):
-                if f.exists():
-                    f.unlink()
-            if len(part) == 1:
+        """TLC runs over `part`.  The evaluation of a rare program is pathologically slow (minutes; the same spec
+        evaluates the others in milliseconds).  Eval_* evaluates the programs in order and appends one line per
+        program, so after a timeout the lines written so far are kept, the program that was being evaluated is
+        returned as an (unspecified) zone and counted - never guessed - and the run continues behind it."""
+        rows: List[Dict[str, Any]] = []
+        states = 0
+        start = 0
+        attempt = 0
+        while start < len(part):
+            sub = part[start:]
+            attempt += 1
+            fin, fout = w / f"in{tag}_{attempt}.ndjson", w / f"out{tag}_{attempt}.ndjson"
+            tlc.write_ndjson(fin, sub)
+            try:
+                r = tlc.run(module, f"{module}.cfg", env={"IN": str(fin), "OUT": str(fout)}, workers=1, heap="3g",
+                            timeout=120 + len(sub))
+            except MachineryError as e:
+                if "timeout" not in str(e):
+                    raise
+                done: List[Dict[str, Any]] = []
+                if fout.exists():
+                    for line in fout.read_text().splitlines():
+                        try:
+                            done.append(json.loads(line))
+                        except ValueError:
+                            break
+                done = done[:len(sub) - 1]
+                if [x["id"] for x in done] != [q["id"] for q in sub[:len(done)]]:
+                    raise MachineryError("oracle output out of order after a timeout")
+                rows += done
+                slow = sub[len(done)]
                 stats["timeouts"] += 1
-                return [{"id": part[0]["id"], "out": [], "err": "", "errs": [], "zone": True, "insts": [], "tops": [],
-                         "elems": [], "marks": [], "deps": {"ijs": [], "icss": [], "mjs": [], "mcss": []},
-                         "oracle_timeout": True}], 0
-            rows, st = [], 0
-            q = max(1, len(part) // 4)
-            for j in range(0, len(part), q):
-                r2, s2 = evaluate(f"{tag}_{j}", part[j:j + q])
-                rows += r2
-                st += s2
-            return rows, st
-        tlc.require_ok(r, f"{module} shard {tag}")
-        rows = tlc.read_ndjson(fout)
-        if len(rows) != len(part):
-            raise MachineryError(f"oracle returned {len(rows)} results for {len(part)} programs")
-        fin.unlink()
-        fout.unlink()
-        return rows, r.distinct
+                rows.append({"id": slow["id"], "out": [], "err": "", "errs": [], "zone": True, "insts": [], "tops": [],
+                             "elems": [], "marks": [], "deps": {"ijs": [], "icss": [], "mjs": [], "mcss": []},
+                             "oracle_timeout": True})
+                start += len(done) + 1
+                for f in (fin, fout):
+                    if f.exists():
+                        f.unlink()
+                continue
+            tlc.require_ok(r, f"{module} shard {tag}")
+            got = tlc.read_ndjson(fout)
+            if len(got) != len(sub):
+                raise MachineryError(f"oracle returned {len(got)} results for {len(sub)} programs")
+            rows += got
+            states += r.distinct
+            fin.unlink()
+            fout.unlink()
+            break
+        return rows, states
 
     def one(k):
         return evaluate(str(k), shards[k])
